@@ -22,7 +22,8 @@ EXPLANATION = ("Scope.value_for is proved by induction: a scope with arbitrary o
                "length, with the resolver in an arbitrary consistent state, leaves the scope that was current current again, keeps the next-scope cursor consistent with the "
                "scope list and only appends scopes; _code_gen is proved against the same contract with an arbitrary statement of every kind as its loop element, the "
                "generators (and the recursive _code_gen calls) being replaced by that contract -- so scope balance holds for arbitrary nestings by induction on the AST, "
-               "machine-checked per generator.  Rename invariance and whole-program resolution on arbitrary nestings are the bounded part.")
+               "machine-checked per generator.  Rename invariance and whole-program resolution on arbitrary nestings are the bounded part."
+               "  Also proved: forward shadowing through the real label pass (`ptr = target` before the block's own `target:`), `:=` binding in the current scope for every scope class, fresh scope objects with own containers, and lookups that pass through scopes holding nothing.")
 TRUSTED = ["vf/specs/progmodel.py AbstractScope (summary of an enclosing chain by its answer for the probed name)"]
 ASSUMPTIONS = ["composition (paper): balanced generators + pre-order creation + replay by position => each pass visits the scope a statement was written in; "
                "with lexical value_for this gives lexical resolution for arbitrary nestings; cross-checked by the composite contract and bounded nestings",
